@@ -71,6 +71,9 @@ def wf_index(c, idx, index_t, pos, rows_done, cur=None, tok_done=None):
                    pos[L_get(LV, T(r), j)][r] < L_len(LI, ent(L_get(LV, T(r), j))),
                    e(L_get(LV, T(r), j), pos[L_get(LV, T(r), j)][r]) == r)), [L_get(LV, T(r), j)])),
         ('lists-well-formed', FA([w], z3.Implies(has(w), L_len(LI, ent(w)) >= 0), [ent(w)])),
+        # (consequence of entries-complete at j = 0, stated with a trigger on the row's token list)
+        ('non-empty-rows-have-a-key', FA([r], z3.Implies(z3.And(r >= 0, r < rows_done, L_len(LV, T(r)) > 0),
+                                                         has(L_get(LV, T(r), ival(0)))), [T(r)])),
     ]
     if cur is not None:
         tk = T(cur)
@@ -83,7 +86,7 @@ def wf_index(c, idx, index_t, pos, rows_done, cur=None, tok_done=None):
 
 
 def spec_axioms():
-    return S.mem_axioms_V() + S.cnt_axioms_V()
+    return S.mem_axioms_V() + S.cnt_axioms_V() + S.toks_axioms()
 
 
 class IndexBuild(Case):
